@@ -42,6 +42,7 @@ From SV Require Import Bytes Lexer Tables ArgCheck ArgSpec Machine Printer GenTa
 Import ListNotations.
 Local Open Scope nat_scope.
 From SV Require Import TotalFacts LexerFacts CompleteFacts CompleteTree CompleteExamples RenderFacts PrintTree CanonFacts CanonTree PrintExamples.
+From SV Require Import LexRules.
 
 (* every string token delivered by the lexer is an exact string token *)
 Theorem C04_lexed_strings_exact :
@@ -244,4 +245,8 @@ Example C04_model_roundtrip :
       end
   | _ => False
   end.
+Proof. vm_compute. reflexivity. Qed.
+
+(* Parser.lrules of the working tree are the regular expressions the scanners of sieve/Lexer.v were translated from *)
+Example C04_lexer_rules : gen_lrules = expected_lrules.
 Proof. vm_compute. reflexivity. Qed.
